@@ -259,8 +259,23 @@ def unit_adjoint_is_fresh():
     return kit.run_unit("adjoint_is_fresh", run)
 
 
+def unit_complex_bounded():
+    """bounded stand-in on real torch (never counted as proved): complex128 with a complex shift and Hermitian operators,
+    gradients against a dense reference (the symbolic identity is over real scalars)"""
+    import re
+
+    def run():
+        c = ctx()
+        r = kit.concrete_replay("C02", ["complex_shift_with_hermitian_operator"])
+        c.check("bounded[real torch,complex128,4x4].oracle_ran", r["returncode"] in (0, 1), detail=r["output"][-300:], kind="bounded")
+        for name, verdict in re.findall(r"ORACLE (\S+): (holds|VIOLATED[^\n]*)", r["output"]):
+            c.check("bounded[real torch,complex128,4x4].%s" % name, verdict == "holds", detail=verdict[:400], kind="bounded")
+    return kit.run_unit("complex_bounded", run)
+
+
 def units(tier):
     us = [
+        ("complex_bounded", unit_complex_bounded),
         ("backward[noE,1,1]", lambda: unit_backward("noE", 1, 1)),
         ("backward[noE,2,1]", lambda: unit_backward("noE", 2, 1)),
         ("backward[E,1,1]", lambda: unit_backward("E", 1, 1)),
